@@ -19,6 +19,7 @@ from .regmodel import registry_digest
 from .common import wmod, newworld
 
 EVENTS = []
+HANDLED = []          # identities of the factories / handlers that were called
 regmod.notify = lambda ev: EVENTS.append(ev)
 
 
@@ -40,6 +41,7 @@ class Comp:
         return 'Comp(%s#%d)' % (s.tag, s.ident)
 
     def __call__(s, *a):
+        HANDLED.append(s.ident)
         return (s.tag, s.ident) + tuple(getattr(x, 'nm', None) for x in a)
 
 
@@ -82,13 +84,15 @@ def all_ops(cfg):
         for r in ('R0', 'R1'):
             ops.append(('regA', f, r, 'P0', ''))
             ops.append(('unregA', f, r, 'P0', ''))
-            ops.append(('regS', f, r, 'P0'))
-            ops.append(('unregS', f, r, 'P0'))
+            for p in cfg.get('sub_provided', ('P0', 'P1')):
+                ops.append(('regS', f, r, p))
+                ops.append(('unregS', f, r, p))
             ops.append(('regH', f, r))
             ops.append(('unregH', f, r))
     for r in ('R0', 'R1'):
         ops.append(('unregA', None, r, 'P0', ''))
-        ops.append(('unregS', None, r, 'P0'))
+        for p in cfg.get('sub_provided', ('P0', 'P1')):
+            ops.append(('unregS', None, r, p))
         ops.append(('unregH', None, r))
     ops.append(('init',))
     ops.append(('rebuild',))
@@ -283,8 +287,16 @@ def observe_check(W, M):
         if sorted(c.getAdapters((ob,), W['P0'])) != sorted(
                 (n, f(ob)) for n, f in ad.lookupAll([W[r]], W['P0'])):
             return ('getAdapters', r)
-        if c.subscribers((ob,), W['P0']) != ad.subscribers((ob,), W['P0']):
-            return ('subscribers', r)
+        for p in ('P0', 'P1'):
+            if c.subscribers((ob,), W[p]) != ad.subscribers((ob,), W[p]):
+                return ('subscribers', r, p)
+        del HANDLED[:]
+        c.handle(ob)
+        got = list(HANDLED)
+        del HANDLED[:]
+        ad.subscribers((ob,), None)
+        if got != list(HANDLED):
+            return ('handle', r, got, list(HANDLED))
         if [s.ident for s in c.adapters.subscriptions([W[r]], None)] != \
                 [s.ident for s in ad.subscriptions([W[r]], None)]:
             return ('handlers', r)
@@ -315,6 +327,12 @@ def run_hist(cfg, hist):
         e = step(W, M, tuple(op))
         if e:
             return W, M, e
+        if cfg.get('warm'):
+            # every listing and query after every call: later calls then run
+            # against filled lookup caches
+            e = observe_check(W, M)
+            if e:
+                return W, M, e
     return W, M, observe_check(W, M)
 
 
@@ -366,7 +384,8 @@ def run(ctx):
              (dict(comps=('u', 'u2', 'h', 'h2'), facs=('f', 'f2')), 3 if quick else 4, 'equal-components')]
     if quick:
         plans = [(dict(), 2, 'full'),
-                 (dict(comps=('u', 'u2', 'h', 'h2'), facs=('f', 'f2')), 3, 'equal-components')]
+                 (dict(comps=('u', 'u2', 'h', 'h2'), facs=('f', 'f2'), sub_provided=('P0',)), 3, 'equal-components')]
+    plans += [(dict(c, warm=True), d, l + '+queries-after-every-call') for c, d, l in plans]
     for impl in ('c', 'py'):
         for cfg, depth, label in plans:
             r = bfs(ctx, impl, 'expand', cfg, int(ctx.opts.get('depth', depth)), label=label)
